@@ -37,6 +37,11 @@ loop) instead of a comprehension; __clone_tasks folded into __clone (inlined by 
 the normaliser splices back): one function then plays both roles ("merged" mode of clone_common); read-only aliases of the
 clone map; `if t.R: copy.R = [...]` guards and `else: copy.R = []` branches; `roots = _to_list(roots)` inside __clone;
 tuple-unpacked constructor arguments in Task.clone.
+Round 4: owner propagation written as one flat loop `for m in [self] + self.__get_all_children(): m.__wbs = wbs` (also
+[self, *..], chain(..); REFUTED when self or the deeper descendants are missing from the iterable); __clone_tasks keeping the
+map to itself and returning the roots of the copy (its return expression is judged in place of `.roots = [...]`); attribute
+copy loops fed by a (name, value) pair stream `((k, V(k)) for k in X.__dict__ if ..)`; a copy loop that stores
+copy.copy / copy.deepcopy of the VALUE is REFUTED (the copy must carry the same attribute values; C10-r43).
 
 Not decided: id collisions between an outside task and a member (the map is keyed by id); mutable attribute values
 shared by reference; overlapping root selections in subtree(); the numeric/behavioural outcome of the setters (C01,
@@ -151,6 +156,72 @@ def _none_guard_only(conds, wp):
     return inverted, [x for x in other if x not in inverted]
 
 
+def _descendant_parts(e, sn):
+    """operands of a `+` / list display that make up the iterable of a flat owner loop -> {'self', 'desc', 'child', '?'}"""
+    if isinstance(e, ast.BinOp) and isinstance(e.op, ast.Add):
+        return _descendant_parts(e.left, sn) | _descendant_parts(e.right, sn)
+    if isinstance(e, ast.Call) and isinstance(e.func, ast.Name) and e.func.id in ('list', 'tuple') and len(e.args) == 1:
+        return _descendant_parts(e.args[0], sn)
+    if isinstance(e, ast.Call) and getattr(e.func, 'attr', getattr(e.func, 'id', '')) == 'chain' and e.args and not e.keywords:
+        out = set()
+        for a in e.args:
+            out |= _descendant_parts(a, sn)
+        return out
+    if isinstance(e, (ast.List, ast.Tuple)):
+        out = set()
+        for x in e.elts:
+            if isinstance(x, ast.Starred):
+                out |= _descendant_parts(x.value, sn)
+            elif isinstance(x, ast.Name) and x.id == sn:
+                out.add('self')
+            else:
+                out.add('?')
+        return out
+    if match(f"{sn}._Task__get_all_children()", e) or match(f"{sn}.all_children", e):
+        return {'desc'}
+    if match(f"{sn}.children", e) or match(f"{sn}._Task__children", e):
+        return {'child'}
+    return {'?'}
+
+
+def _owner_flat(ctx, o, fn, wp) -> bool:
+    """flat form of the owner propagation:  for m in [self] + self.__get_all_children(): m.__wbs = wp   (no recursion).
+    Returns True when the function is written in this form (verdict recorded), False when it is not"""
+    acfg = cfg_of(fn)
+    sn = fn.self_name
+    ex = Expander(ctx.prog, fn, ctx.typer)
+    found = []
+    for s, t, v in facts.attr_stores(fn, '_Task__wbs'):
+        cn = acfg.node_of(s)
+        fors = acfg.enclosing_fors(cn) if cn is not None else []
+        if fors and isinstance(fors[-1].target, ast.Name) and isinstance(t.value, ast.Name) and t.value.id == fors[-1].target.id:
+            found.append((s, v, cn, fors))
+    if len(found) != 1:
+        return False
+    s, v, cn, fors = found[0]
+    if len(fors) != 1 or not (isinstance(v, ast.Name) and v.id == wp):
+        o.undecided(fn, s, s, f"Task.{fn.name} stores the owner inside a loop in a form the rule does not follow")
+        return True
+    parts = _descendant_parts(ex.expand(fors[0].iter, acfg.node_of(fors[0])), sn)
+    inverted, other = _none_guard_only(acfg.conditions(cn), wp)
+    if inverted:
+        o.refute(fn, s, s, f"Task.{fn.name} stores the owner only when `{wp}` is None (inverted early return): a task attached to a WBS "
+                           f"never reports it as owner")
+    elif other or '?' in parts:
+        o.undecided(fn, s, s, f"Task.{fn.name} stores the owner in a loop over `{src(fors[0].iter)[:60]}` / under a condition the rule does "
+                              f"not interpret")
+    elif 'self' not in parts:
+        o.refute(fn, s, fors[0].iter, f"Task.{fn.name} stores the owner for `{src(fors[0].iter)[:60]}` only: the attached task itself is "
+                                      f"left out and does not report the new WBS")
+    elif 'desc' not in parts:
+        o.refute(fn, s, fors[0].iter, f"Task.{fn.name} stores the owner for `{src(fors[0].iter)[:60]}` only: deeper descendants of the "
+                                      f"attached roots keep owner None")
+    else:
+        o.site(fn, s, f"{fn.name}: m.__wbs = {wp} for m in [self] + all descendants")
+        o.site(fn, fors[0], f"{fn.name} covers every descendant (flat loop instead of recursion)")
+    return True
+
+
 def _owner_setter(ctx, o, fn, wp, depth):
     """fn(self, wp) stores wp into self.__wbs (skipping at most `wp is None`) and does the same for every child - directly or
     through one private helper it forwards (self, wp) to"""
@@ -180,6 +251,8 @@ def _owner_setter(ctx, o, fn, wp, depth):
             else:
                 _owner_setter(ctx, o, h, h.params[1], 1)
             return
+    if not ws and _owner_flat(ctx, o, fn, wp):
+        return
     if len(ws) == 1 and isinstance(ws[0][1], ast.Name) and ws[0][1].id == wp:
         inverted, other = _none_guard_only(acfg.conditions(acfg.node_of(ws[0][0])), wp)
         if inverted:
